@@ -1262,12 +1262,36 @@ func (e *Engine) logInvoke(p *Path, fr *Frame, lg string, c *ssa.CallCommon, rec
 		e.registerLogMethods(it)
 	}
 	e.TrustedUse["iface "+lg+".* (ghost event log: records the call, may panic, touches nothing else)"] = true
+	n := p.st.evLen()
 	e.logEvent(p.st, c.Method.Name(), args)
+	// the receiver the call was made on
+	if rt, ok := recv.(*Term); ok {
+		ra := p.st.evArray("ev:recv", rt.Sort)
+		p.st.Ghost["ev:recv"] = Store(ra, n, rt)
+	}
 	p2 := p.clone()
 	e.raisePanic(p2)
 	rs := c.Method.Type().(*types.Signature).Results()
-	if dst != nil && rs.Len() > 0 {
-		fr.env[dst] = freshOf("ret", rs, nil, false)
+	if rs.Len() > 0 {
+		// results are arbitrary values, recorded in the log so that contracts can say "returns what the delegate returned"
+		var res []Value
+		for k := 0; k < rs.Len(); k++ {
+			v := freshOf("ret:"+c.Method.Name(), rs.At(k).Type(), nil, false)
+			p.st.assumeWF(v, rs.At(k).Type())
+			res = append(res, v)
+			for j, l := range leaves(v) {
+				name := fmt.Sprintf("ev:r%d.%d:%s", k, j, l.Sort.String())
+				arr := p.st.evArray(name, l.Sort)
+				p.st.Ghost[name] = Store(arr, n, l)
+			}
+		}
+		if dst != nil {
+			if len(res) == 1 {
+				fr.env[dst] = res[0]
+			} else {
+				fr.env[dst] = &TupleV{E: res}
+			}
+		}
 	}
 	return []*Path{p2}
 }
